@@ -3,40 +3,14 @@
   condition that is part of the node's definedness (`mergeOK`: the join keys are columns, a key of one side does not
   collide with a non-key column of the other — `KeysDoNotCollide`, open finding D34 — and the result labels are
   duplicate-free).  From `C04_merge_wf` (both pushed lists are duplicate-free sub-schemas that keep the keys),
-  `C04_merge_labels_partial` (every requested label is still produced) and the lemmas behind
-  `C04_merge_values_{left,right}_partial` (`merge_left_source`, `merge_right_source`, `labelL_pruned`, `labelR_pruned`).
-  The value theorems themselves are stated over `MergeOp`, whose laws quantify over frames with colliding labels and
-  are only satisfiable by degenerate joins; here the same argument is carried out for `mergeFrame` directly.
+  `C04_merge_pruned_wf` (the pruned join has duplicate-free labels again), `C04_merge_labels_partial` (every requested
+  label is still produced) and `C04_merge_values_{left,right}_partial` applied to the fragment's join `mergeM`.
 -/
 import DxModel.Lemmas.FragRules
 namespace Dx.Frag
 open Dx Dx.Cols
 
 variable {γ ι : Type}
-
-/-! ### why `MergeOp` is not instantiated -/
-
-theorem labelL_twin_a : labelL ⟨[], [], "_x", "_y"⟩ ["a"] "a" = "a_x" := by decide
-theorem labelL_twin_ax : labelL ⟨[], [], "_x", "_y"⟩ ["a"] "a_x" = "a_x" := by decide
-
-/-- `MergeOp.op_left` is asked for ALL frames, also when two left columns get the same result label (`a` suffixed to
-    `a_x` next to a column `a_x`): a `MergeOp` (here: no keys, suffix `_x`) cannot let a result column depend on the data
-    of the left column it carries.  The fragment's join `mergeFrame` is therefore treated directly, under the
-    duplicate-free result labels that are part of `mergeOK`. -/
-theorem mergeOp_degenerate (M : MergeOp γ) (hm : M.m = ⟨[], [], "_x", "_y"⟩)
-    (l r : Name → Option γ) (x y : Option γ) : M.TL l r x = M.TL l r y := by
-  let A : Frame γ := ⟨["a", "a_x"], fun c => if c = "a" then x else y⟩
-  let B : Frame γ := ⟨["a"], r⟩
-  have h1 := M.op_left A B "a" rfl
-  have h2 := M.op_left A B "a_x" rfl
-  have e1 : labelL M.m B.cols "a" = "a_x" := by rw [hm]; exact labelL_twin_a
-  have e2 : labelL M.m B.cols "a_x" = "a_x" := by rw [hm]; exact labelL_twin_ax
-  rw [e1] at h1
-  rw [e2] at h2
-  have hk := (M.T_keys l A.val r B.val (by rw [hm]; intro k hk; cases hk) (by rw [hm]; intro k hk; cases hk)).1
-  rw [hk]
-  have : M.TL A.val B.val (A.val "a") = M.TL A.val B.val (A.val "a_x") := by rw [← h1, ← h2]
-  simpa [A] using this
 
 /-! ### labels -/
 
@@ -69,128 +43,7 @@ theorem mergeOK_iff (m : MergeP) (L R : List Name) :
       · exact Or.inr (h4 c hc hL)
       · exact Or.inl (by simpa using hL)
 
-theorem nodup_map_of_inj {α : Type} (f : α → Name) : ∀ (l : List α), l.Nodup →
-    (∀ a b, a ∈ l → b ∈ l → f a = f b → a = b) → (l.map f).Nodup
-  | [], _, _ => List.nodup_nil
-  | x :: t, h, hinj => by
-    simp only [List.nodup_cons] at h
-    simp only [List.map_cons, List.nodup_cons, List.mem_map, not_exists, not_and]
-    refine ⟨?_, nodup_map_of_inj f t h.2 (fun a b ha hb => hinj a b (by simp [ha]) (by simp [hb]))⟩
-    intro y hy hfy
-    have := hinj y x (by simp [hy]) (by simp) hfy
-    subst this
-    exact h.1 hy
-
-/-- the collision partner of every kept left column is kept on the right -/
-theorem merge_left_twin {m : MergeP} {L R proj : List Name} (hR : R.Nodup) (hk : KeysDoNotCollide m L R) {c : Name}
-    (hc : c ∈ (mergeLists m L R proj).1) (h : (R.contains c && !commonKey m c) = true) :
-    c ∈ (mergeLists m L R proj).2 := by
-  simp only [Bool.and_eq_true, Bool.not_eq_true'] at h
-  obtain ⟨hcR, hck⟩ := h
-  have hcRm : c ∈ R := List.contains_iff_mem.mp hcR
-  rw [mergeLists_eq m L R proj hR] at hc ⊢
-  rcases List.mem_append.mp hc with h1 | h1
-  · -- kept by the left loop
-    have hA := (List.mem_filter.mp h1).2
-    have hcL := (List.mem_filter.mp h1).1
-    simp only [mA, Bool.or_eq_true] at hA
-    rcases hA with (hkey | hp) | hs
-    · have := hk.1 c (List.contains_iff_mem.mp hkey) hcRm
-      rw [hck] at this; cases this
-    · have := merge_right_of_proj m L R proj hR hcRm hp
-      rw [mergeLists_eq m L R proj hR] at this
-      exact this
-    · by_cases hkp : (m.leftOn.contains c || proj.contains c) = true
-      · rcases Bool.or_eq_true _ _ ▸ hkp with hkey | hp
-        · have := hk.1 c (List.contains_iff_mem.mp hkey) hcRm
-          rw [hck] at this; cases this
-        · have := merge_right_of_proj m L R proj hR hcRm hp
-          rw [mergeLists_eq m L R proj hR] at this
-          exact this
-      · apply List.mem_append_left
-        rw [List.mem_filter]
-        refine ⟨hcL, ?_⟩
-        have hkp' : (m.leftOn.contains c || proj.contains c) = false := by simpa using hkp
-        simp only [mB, hkp', Bool.not_false, hs, hcR, Bool.and_self]
-  · -- appended by the right loop as the partner of a suffixed right column
-    have hG := (List.mem_filter.mp h1).2
-    simp only [mG, Bool.and_eq_true, Bool.not_eq_true'] at hG
-    obtain ⟨⟨⟨⟨hnpr, hnk⟩, hs⟩, _⟩, _⟩ := hG
-    apply List.mem_append_right
-    rw [List.mem_filter]
-    refine ⟨hcRm, ?_⟩
-    simp only [mH, hnpr, Bool.not_false, Bool.true_and, hs, Bool.or_true]
-
-/-- … and symmetrically -/
-theorem merge_right_twin {m : MergeP} {L R proj : List Name} (hR : R.Nodup) (hk : KeysDoNotCollide m L R) {c : Name}
-    (hc : c ∈ (mergeLists m L R proj).2) (h : (L.contains c && !commonKey m c) = true) :
-    c ∈ (mergeLists m L R proj).1 := by
-  simp only [Bool.and_eq_true, Bool.not_eq_true'] at h
-  obtain ⟨hcL, hck⟩ := h
-  have hcLm : c ∈ L := List.contains_iff_mem.mp hcL
-  rw [mergeLists_eq m L R proj hR] at hc ⊢
-  rcases List.mem_append.mp hc with h1 | h1
-  · exact List.mem_append_left _ (List.mem_filter.mpr ⟨hcLm, mB_imp_mA m R proj (List.mem_filter.mp h1).2⟩)
-  · have hH := (List.mem_filter.mp h1).2
-    have hcR := (List.mem_filter.mp h1).1
-    simp only [mH, Bool.and_eq_true, Bool.not_eq_true', Bool.or_eq_true] at hH
-    obtain ⟨hnpr, hcase⟩ := hH
-    rcases hcase with (hkey | hp) | hs
-    · have := hk.2 c (List.contains_iff_mem.mp hkey) hcLm
-      rw [hck] at this; cases this
-    · apply List.mem_append_left
-      rw [List.mem_filter]
-      exact ⟨hcLm, by simp only [mA, hp, Bool.or_true, Bool.true_or]⟩
-    · by_cases hkp : (m.rightOn.contains c || proj.contains c) = true
-      · rcases Bool.or_eq_true _ _ ▸ hkp with hkey | hp
-        · have := hk.2 c (List.contains_iff_mem.mp hkey) hcLm
-          rw [hck] at this; cases this
-        · apply List.mem_append_left
-          rw [List.mem_filter]
-          exact ⟨hcLm, by simp only [mA, hp, Bool.or_true, Bool.true_or]⟩
-      · have hkp' : (m.rightOn.contains c || proj.contains c) = false := by simpa using hkp
-        by_cases hpl : (L.filter (mA m proj)).contains c = true
-        · exact List.mem_append_left _ (List.contains_iff_mem.mp hpl)
-        · have hpl' : (L.filter (mA m proj)).contains c = false := by simpa using hpl
-          apply List.mem_append_right
-          rw [List.mem_filter]
-          refine ⟨hcR, ?_⟩
-          simp only [mG, hnpr, Bool.not_false, hkp', hs, hcL, hpl', Bool.and_self]
-
 /-! ### columns of the joined frame -/
-
-theorem find?_eq_of_inj {α : Type} (f : α → Name) (l : List α) (hn : (l.map f).Nodup) {c : α} (hc : c ∈ l) :
-    l.find? (fun x => f x == f c) = some c := by
-  cases hf : l.find? (fun x => f x == f c) with
-  | none =>
-    rw [List.find?_eq_none] at hf
-    exact absurd (by simp) (hf c hc)
-  | some c' =>
-    have h1 := List.find?_some hf
-    have h2 := List.mem_of_find?_eq_some hf
-    have := inj_of_nodup_map f l hn c' c h2 hc (by simpa using h1)
-    rw [this]
-
-theorem mergeFrame_val_left (I : Interp γ ι) (how : Nat) (m : MergeP) (A B : Frame γ)
-    (hnd : (mergeLabels m A.cols B.cols).Nodup) {c : Name} (hc : c ∈ A.cols) :
-    (mergeFrame I how m A B).val (labelL m B.cols c) =
-      (A.val c).map (I.joinL how (m.leftOn.map A.val) (m.rightOn.map B.val)) := by
-  unfold mergeLabels at hnd
-  rw [List.nodup_append] at hnd
-  simp only [mergeFrame, find?_eq_of_inj (labelL m B.cols) A.cols hnd.1 hc]
-
-theorem mergeFrame_val_right (I : Interp γ ι) (how : Nat) (m : MergeP) (A B : Frame γ)
-    (hnd : (mergeLabels m A.cols B.cols).Nodup) {c : Name} (hc : c ∈ B.cols) (hck : commonKey m c = false) :
-    (mergeFrame I how m A B).val (labelR m A.cols c) =
-      (B.val c).map (I.joinR how (m.leftOn.map A.val) (m.rightOn.map B.val)) := by
-  unfold mergeLabels at hnd
-  rw [List.nodup_append] at hnd
-  have hcf : c ∈ B.cols.filter (fun c => !commonKey m c) := List.mem_filter.mpr ⟨hc, by simp [hck]⟩
-  have hnone : A.cols.find? (fun x => labelL m B.cols x == labelR m A.cols c) = none := by
-    apply find?_none_of_not_mem_map
-    intro hm
-    exact hnd.2.2 _ hm _ (List.mem_map.mpr ⟨c, hcf, rfl⟩) rfl
-  simp only [mergeFrame, hnone, find?_eq_of_inj (labelR m A.cols) _ hnd.2.1 hcf]
 
 theorem semOp_merge_iff (I : Interp γ ι) (how : Nat) (m : MergeP) (A B v : FVal γ) :
     semOp I (.merge how m) [A, B] = some v ↔
@@ -272,36 +125,11 @@ theorem upMerge_sound (I : Interp γ ι) {how : Nat} {m : MergeP} {a b c p o : E
             fun k hk => merge_left_keys m va.fr.cols vb.fr.cols pj hRn hk (hlo k hk)
           have hprk : ∀ k, k ∈ m.rightOn → k ∈ (mergeLists m va.fr.cols vb.fr.cols pj).2 :=
             fun k hk => merge_right_keys m va.fr.cols vb.fr.cols pj hRn hk (hro k hk)
-          -- labels are stable on the kept columns
-          have hlabL : ∀ x, x ∈ (mergeLists m va.fr.cols vb.fr.cols pj).1 →
-              labelL m (mergeLists m va.fr.cols vb.fr.cols pj).2 x = labelL m vb.fr.cols x :=
-            fun x hx => labelL_pruned m _ _ x hprsub (merge_left_twin hRn hkeys hx)
-          have hlabR : ∀ x, x ∈ (mergeLists m va.fr.cols vb.fr.cols pj).2 →
-              labelR m (mergeLists m va.fr.cols vb.fr.cols pj).1 x = labelR m va.fr.cols x :=
-            fun x hx => labelR_pruned m _ _ x hplsub (merge_right_twin hRn hkeys hx)
           -- the pruned merge is well-formed
-          have hlnd0 := hlnd
-          unfold mergeLabels at hlnd0
-          rw [List.nodup_append] at hlnd0
-          have hlnd' : (mergeLabels m (mergeLists m va.fr.cols vb.fr.cols pj).1 (mergeLists m va.fr.cols vb.fr.cols pj).2).Nodup := by
-            unfold mergeLabels
-            rw [List.map_congr_left hlabL,
-              List.map_congr_left (fun x hx => hlabR x (List.mem_filter.mp hx).1), List.nodup_append]
-            refine ⟨?_, ?_, ?_⟩
-            · exact nodup_map_of_inj _ _ hplnd (fun x y hx hy he =>
-                inj_of_nodup_map _ _ hlnd0.1 x y (hplsub x hx) (hplsub y hy) he)
-            · exact nodup_map_of_inj _ _ (List.Nodup.sublist List.filter_sublist hprnd) (fun x y hx hy he =>
-                inj_of_nodup_map _ _ hlnd0.2.1 x y
-                  (List.mem_filter.mpr ⟨hprsub x (List.mem_filter.mp hx).1, (List.mem_filter.mp hx).2⟩)
-                  (List.mem_filter.mpr ⟨hprsub y (List.mem_filter.mp hy).1, (List.mem_filter.mp hy).2⟩) he)
-            · intro x hx y hy hxy
-              obtain ⟨x0, hx0, rfl⟩ := List.mem_map.mp hx
-              obtain ⟨y0, hy0, rfl⟩ := List.mem_map.mp hy
-              exact hlnd0.2.2 _ (List.mem_map.mpr ⟨x0, hplsub x0 hx0, rfl⟩) _
-                (List.mem_map.mpr ⟨y0, List.mem_filter.mpr ⟨hprsub y0 (List.mem_filter.mp hy0).1, (List.mem_filter.mp hy0).2⟩, rfl⟩) hxy
+          obtain ⟨hlnd', hkeys'⟩ := C04_merge_pruned_wf m va.fr.cols vb.fr.cols hLn hRn hkeys hlnd pj
           have hok' : mergeOK m (mergeLists m va.fr.cols vb.fr.cols pj).1 (mergeLists m va.fr.cols vb.fr.cols pj).2 = true := by
             rw [mergeOK_iff]
-            exact ⟨hplk, hprk, ⟨fun x hx hxr => hkeys.1 x hx (hprsub x hxr), fun x hx hxl => hkeys.2 x hx (hplsub x hxl)⟩, hlnd'⟩
+            exact ⟨hplk, hprk, hkeys', hlnd'⟩
           have hpa := den_proj_some (s := .many (mergeLists m va.fr.cols vb.fr.cols pj).1) hva hA hplnd hplsub
           have hpb := den_proj_some (s := .many (mergeLists m va.fr.cols vb.fr.cols pj).2) hvb hB hprnd hprsub
           have hnew : den I (mk (.merge how m) [proj (.many (mergeLists m va.fr.cols vb.fr.cols pj).1) a,
@@ -322,31 +150,28 @@ theorem upMerge_sound (I : Interp γ ι) {how : Nat} {m : MergeP} {a b c p o : E
           congr 2
           apply select_congr
           intro l hl
-          have hlp : pj.contains l = true := by
-            rw [← hproj]
-            exact detProj_contains.mpr (parent_mem_union (by rw [parentOf_cols]; exact hl))
-          have hkl : m.leftOn.map (va.fr.select (mergeLists m va.fr.cols vb.fr.cols pj).1).val = m.leftOn.map va.fr.val :=
-            List.map_congr_left (fun k hk => select_val_mem (hplk k hk))
-          have hkr : m.rightOn.map (vb.fr.select (mergeLists m va.fr.cols vb.fr.cols pj).2).val = m.rightOn.map vb.fr.val :=
-            List.map_congr_left (fun k hk => select_val_mem (hprk k hk))
           have hml := hsub' l hl
+          have hr0 := hr
+          rw [← hproj] at hr0
+          have hlo' : ∀ k, k ∈ (mergeM I how m).m.leftOn → k ∈ va.fr.cols := hlo
+          have hro' : ∀ k, k ∈ (mergeM I how m).m.rightOn → k ∈ vb.fr.cols := hro
           unfold mergeLabels at hml
           rcases List.mem_append.mp hml with hm | hm
           · obtain ⟨c0, hc0, rfl⟩ := List.mem_map.mp hm
-            have hsrc := merge_left_source m va.fr.cols vb.fr.cols pj hRn hkeys.1 hc0 hlp
-            rw [mergeFrame_val_left I how m va.fr vb.fr hlnd hc0, ← hlabL c0 hsrc.1]
-            have := mergeFrame_val_left I how m (va.fr.select (mergeLists m va.fr.cols vb.fr.cols pj).1)
-              (vb.fr.select (mergeLists m va.fr.cols vb.fr.cols pj).2) hlnd' (c := c0) hsrc.1
-            rw [select_cols] at this
-            rw [this, hkl, hkr, select_val_mem hsrc.1]
+            have := C04_merge_values_left_partial (mergeM I how m) va.fr vb.fr hLn hRn hlnd hkeys hlo' hro'
+              (parentOf sel) (depsOf d c) _ hr0 c0 hc0 (by rw [parentOf_cols]; exact hl)
+            rw [parentOf_cols, hproj] at this
+            simp only [evalMerge, selOpt_many, mergeM_m, mergeM_op] at this
+            rw [select_val_mem hl, select_val_mem hl] at this
+            exact this
           · obtain ⟨c0, hc0, rfl⟩ := List.mem_map.mp hm
             have hc0R := (List.mem_filter.mp hc0).1
             have hck : commonKey m c0 = false := by simpa using (List.mem_filter.mp hc0).2
-            have hsrc := merge_right_source m va.fr.cols vb.fr.cols pj hRn hkeys.2 hc0R hlp
-            rw [mergeFrame_val_right I how m va.fr vb.fr hlnd hc0R hck, ← hlabR c0 hsrc.1]
-            have := mergeFrame_val_right I how m (va.fr.select (mergeLists m va.fr.cols vb.fr.cols pj).1)
-              (vb.fr.select (mergeLists m va.fr.cols vb.fr.cols pj).2) hlnd' (c := c0) hsrc.1 hck
-            rw [select_cols] at this
-            rw [this, hkl, hkr, select_val_mem hsrc.1]
+            have := C04_merge_values_right_partial (mergeM I how m) va.fr vb.fr hLn hRn hlnd hkeys hlo' hro'
+              (parentOf sel) (depsOf d c) _ hr0 c0 hc0R hck (by rw [parentOf_cols]; exact hl)
+            rw [parentOf_cols, hproj] at this
+            simp only [evalMerge, selOpt_many, mergeM_m, mergeM_op] at this
+            rw [select_val_mem hl, select_val_mem hl] at this
+            exact this
 
 end Dx.Frag
